@@ -28,6 +28,12 @@ const (
 	// https://regex101.com/r/XVN7Kw/1
 	RegexToReplaceWildcard string = "(/.*)?"
 
+	// Regex for a parameter in host position, e.g. {region}.twitter.com: one host label
+	RegexToReplaceHostParameters string = "[^./]+"
+
+	// Regex for a wildcard after the host of a host-only URL, e.g. twitter.*
+	RegexToReplaceHostWildcard string = `(\..*)?`
+
 	// Example of regex for a URL with both path parameters and wildcard:
 	// ^twitter\.com\/user/[^/]+/post/[^/]+/by(/.*)?$
 	// See unit tests for matching/non-matching URL examples:
@@ -137,23 +143,32 @@ func HaproxyEndpointFormat(
 	requirements *stream_types.ProcessorRequirement,
 ) *HAProxyEndpointData {
 	log.Trace().Msgf("Original URL: %v", url)
-	wildcardLiteral := "/*"
-	hasWildcard := strings.HasSuffix(url, wildcardLiteral)
-	url = strings.TrimSuffix(url, wildcardLiteral)
-	// Every segment is matched literally (regex metacharacters quoted), except path parameters:
-	// the segments the engine's URL tree treats as parameters, whatever their name
+	// A trailing wildcard: after the path (host.com/path/*) or, for a host-only URL, after the host (host.*)
+	wildcardRegex := ""
+	if strings.HasSuffix(url, "/*") {
+		url = strings.TrimSuffix(url, "/*")
+		wildcardRegex = RegexToReplaceWildcard
+	} else if !strings.Contains(url, "/") && strings.HasSuffix(url, ".*") {
+		url = strings.TrimSuffix(url, ".*")
+		wildcardRegex = RegexToReplaceHostWildcard
+	}
+	hasWildcard := wildcardRegex != ""
+	// Every part is matched literally (regex metacharacters quoted), except path parameters:
+	// the parts the engine's URL tree treats as parameters, whatever their name.
+	// The first segment is the host, its parts are separated by dots.
 	segments := strings.Split(url, "/")
 	for i, segment := range segments {
-		if _, isPathParameter := urltree.TryExtractPathParameter(segment); i > 0 && isPathParameter {
-			segments[i] = strings.TrimPrefix(RegexToReplacePathParameters, "/")
+		if i == 0 {
+			hostParts := strings.Split(segment, ".")
+			for j, hostPart := range hostParts {
+				hostParts[j] = formatURLPart(hostPart, RegexToReplaceHostParameters)
+			}
+			segments[i] = strings.Join(hostParts, `\.`)
 		} else {
-			segments[i] = regexp.QuoteMeta(segment)
+			segments[i] = formatURLPart(segment, strings.TrimPrefix(RegexToReplacePathParameters, "/"))
 		}
 	}
-	formattedURL := strings.Join(segments, "/")
-	if hasWildcard {
-		formattedURL += RegexToReplaceWildcard
-	}
+	formattedURL := strings.Join(segments, "/") + wildcardRegex
 	log.Trace().Msgf("Formatted URL: %v", formattedURL)
 	result := strings.Join([]string{method, formattedURL}, delimiter)
 	if !hasWildcard {
@@ -163,6 +178,14 @@ func HaproxyEndpointFormat(
 		Endpoint:     result,
 		Requirements: requirements,
 	}
+}
+
+// formatURLPart quotes a literal URL part; a part the URL tree treats as a parameter becomes parameterRegex
+func formatURLPart(part, parameterRegex string) string {
+	if _, isParameter := urltree.TryExtractPathParameter(part); isParameter {
+		return parameterRegex
+	}
+	return regexp.QuoteMeta(part)
 }
 
 func ManageHAProxyEndpoints(haproxyEndpoints *HAProxyEndpointsRequest) error {
